@@ -111,6 +111,10 @@ class Tally:
 
 def _init_worker(assertions, reclimit):
     try:
+        import faulthandler
+        import signal
+
+        faulthandler.register(signal.SIGUSR1, all_threads=False)  # kill -USR1 <worker pid> dumps its Python stack
         if reclimit:
             sys.setrecursionlimit(reclimit)
         load_anytree(assertions)
@@ -284,6 +288,9 @@ def chunks(items, n):
     return [items[i:i + size] for i in range(0, len(items), size)]
 
 
+_PROCESS_TIMEOUTS = [0]  # non-terminating cases seen by this worker process (circuit breaker)
+
+
 class CaseTimeout(BaseException):
     """A single case did not terminate (e.g. the library walks a cyclic parent chain).  Not an Exception: neither the
     library's nor the harness's `except Exception` may swallow it."""
@@ -319,6 +326,10 @@ class time_limit(object):
 def guard(t, pid, case, fn, *args, **kw):
     """Run one case; an unexpected exception while the real code (or the comparison of its junk result) is
     evaluated is a finding about the code under test, not a harness crash."""
+    if _PROCESS_TIMEOUTS[0] >= 3:
+        # this worker already met non-terminating cases: do not spend the whole budget on more of them
+        t.c["cases_skipped_after_timeouts"] += 1
+        return None
     try:
         with time_limit(kw.pop("_limit", 6)):
             return fn(*args, **kw)
@@ -326,6 +337,9 @@ def guard(t, pid, case, fn, *args, **kw):
         raise
     except (Exception, CaseTimeout) as exc:  # noqa
         tb = traceback.format_exc().strip().splitlines()
+        if isinstance(exc, CaseTimeout):
+            t.c["case_timeouts"] += 1
+            _PROCESS_TIMEOUTS[0] += 1
         c = dict(case)
         c["unexpected_exception"] = tb[-6:]
         t.violation("%s: unexpected %s while evaluating the case: %s" % (pid, type(exc).__name__, exc), c)
